@@ -197,3 +197,39 @@ B('reshare-window-reordered', (RT, "        for peer_pid in range(uci, uci + 2*t
 B('output-guard-equivalent', (RT, "            if 0 < (peer_pid - self.pid) % m <= t:", "            if 1 <= (peer_pid - self.pid) % m <= t:"))
 B('split-local-rename', (TH, "        c = [secrets.randbelow(order) for _ in range(t)]\n        # polynomial f(X) = s[h] + c[t-1] X + c[t-2] X^2 + ... + c[0] X^t\n        for i1 in range(1, m+1):\n            y = _0\n            for c_j in c:",
                          "        coefs = [secrets.randbelow(order) for _ in range(t)]\n        # polynomial f(X) = s[h] + c[t-1] X + c[t-2] X^2 + ... + c[0] X^t\n        for i1 in range(1, m+1):\n            y = _0\n            for c_j in coefs:"))
+
+# ---------------------------------------------------------------- FX / PAI
+M('add-integral-or', ['C03'], (RT, "            await self.returnType((stype, a.integral and b.integral))\n        a, b = await self.gather(a, b)\n        return a + b", "            await self.returnType((stype, a.integral or b.integral))\n        a, b = await self.gather(a, b)\n        return a + b"))
+M('mul-flag-drop-a', ['C03', 'C02'], (RT, "            await self.returnType((stype, a_integral and (b_integral or z == f)))", "            await self.returnType((stype, b_integral or z == f))"))
+M('in_prod-flag-any', ['C03'], (RT, "            x_integral = all(a.integral for a in x)\n            y_integral", "            x_integral = any(a.integral for a in x)\n            y_integral"))
+M('prod-internal-or', ['C03'], (RT, "                integral[n%2:] = [integral[i] and integral[i+1] for i in range(n%2, n, 2)]", "                integral[n%2:] = [integral[i] or integral[i+1] for i in range(n%2, n, 2)]"))
+M('schur-shift-and', ['C03', 'C02'], (RT, "            if f and (x_integral or y_integral):\n                x[i] >>= f  # NB: in-place rshift", "            if f and (x_integral and y_integral):\n                x[i] >>= f  # NB: in-place rshift"))
+M('matrix-trunc-or', ['C03', 'C02'], (RT, "        if f and not A_integral and not B_integral:\n            C = self.trunc(C, f=f, l=stype.bit_length)", "        if f and not (A_integral and B_integral):\n            C = self.trunc(C, f=f, l=stype.bit_length)"))
+M('mul-shift-unlicensed', ['C03', 'C02'], (RT, "        if f and (a_integral or b_integral) and z != f:\n            c >>= f - z  # NB: in-place rshift\n        if shb:\n            c = self._reshare(c)  # a la [GRR98]\n        if f and not (a_integral or b_integral) and z != f:\n            c = self.trunc(stype(c), f=f - z)",
+                                           "        if f and z != f:\n            c >>= f - z  # NB: in-place rshift\n        if shb:\n            c = self._reshare(c)  # a la [GRR98]"))
+M('mul-shift-amount', ['C03', 'C02'], (RT, "            c >>= f - z  # NB: in-place rshift\n        if shb:\n            c = self._reshare(c)  # a la [GRR98]", "            c >>= f  # NB: in-place rshift\n        if shb:\n            c = self._reshare(c)  # a la [GRR98]"))
+M('sgn-no-scale', ['C03'], (RT, "                z = await self._reshare(z)\n\n        z <<= stype.frac_length\n        return z", "                z = await self._reshare(z)\n\n        return z"))
+M('ctor-approx-integral', ['C03'], ('sectypes', "                    integral = value.is_integer()", "                    integral = abs(value - round(value)) < 2**-self.frac_length"))
+M('ctor-int-not-true', ['C03'], ('sectypes', "            if isinstance(value, int):\n                if integral is None:\n                    integral = True\n                value = self.field(value << self.frac_length)", "            if isinstance(value, int):\n                integral = True\n                value = self.field(value << self.frac_length)"))
+M('revert-fix-np_sum-initial', ['C03'], (RT, "                rettype = (sectype, a.integral and initial.integral)", "                rettype = (sectype, a.integral)"))
+M('np_update-drop-value', ['C03', 'C37'], (RT, "            rettype = (stype, a.integral and value.integral, shape)", "            rettype = (stype, a.integral, shape)"))
+M('mul-reshare-elif', ['C02', 'C01', 'C11'], (RT, "            c >>= f - z  # NB: in-place rshift\n        if shb:\n            c = self._reshare(c)  # a la [GRR98]", "            c >>= f - z  # NB: in-place rshift\n        elif shb:\n            c = self._reshare(c)  # a la [GRR98]"))
+M('prod-no-reshare', ['C01', 'C11', 'C02'], (RT, "            x[n%2:] = await self._reshare(h)\n            if f:\n                z = []", "            x[n%2:] = h\n            if f:\n                z = []"))
+M('iszero-threshold-weak', ['C01', 'C04', 'C11'], (RT, "        field_relative_size = field.order.bit_length() // self.options.sec_param\n        if field_relative_size == 0 and self.options.no_prss:\n            threshold = self.threshold  # will suffice due to reshare below\n        else:\n            threshold = 2 * self.threshold\n\n        if field_relative_size >= 2:  # large fields\n            r = self._random(field)",
+                                                   "        field_relative_size = field.order.bit_length() // self.options.sec_param\n        if field_relative_size < 2 and self.options.no_prss:\n            threshold = self.threshold  # will suffice due to reshare below\n        else:\n            threshold = 2 * self.threshold\n\n        if field_relative_size >= 2:  # large fields\n            r = self._random(field)"))
+M('is_zero-output-default-thr', ['C01', 'C11'], (RT, "        c = await self.output(c, threshold=2*self.threshold)\n        for i in range(k):", "        c = await self.output(c)\n        for i in range(k):"))
+M('reciprocal-no-threshold', ['C04', 'C11'], (RT, "            ar = await self.output(ar, threshold=threshold)\n            if ar:", "            ar = await self.output(ar)\n            if ar:"))
+M('mod-xor-on-share', ['C01', 'C11'], (RT, "            e[i] = Zp(s_sign + r_i - c_i + 3*sumXors)\n            sumXors += 1 - r_i if c_i else r_i\n        e[l] = Zp(s_sign + 1 + 3*sumXors)", "            e[i] = Zp(s_sign + r_i - c_i + 3*sumXors)\n            sumXors += r_i ^ c_i\n        e[l] = Zp(s_sign + 1 + 3*sumXors)"))
+M('lsb-branch-on-share', ['C01', 'C11'], (RT, "        x = 1 - b if c.value & 1 else b  # xor", "        x = 1 - b if b.value & 1 else b  # xor"))
+M('sgn-mask-dropped', ['C18'], (RT, "        c = await self.output(a_rmodl + (r_divl << l))\n        c = c.value % (1<<l)\n\n        if not EQ:", "        c = await self.output(a_rmodl)\n        c = c.value % (1<<l)\n\n        if not EQ:"))
+M('sgn-mask-short', ['C18'], (RT, "        r_divl = self._random(Zp, 1<<k)\n        r_bits = await r_bits", "        r_divl = self._random(Zp, 1<<8)\n        r_bits = await r_bits"))
+M('trunc-mask-short', ['C18', 'C02'], (RT, "        r_divf = self._randoms(Zp, n, 1 << k + l - f)", "        r_divf = self._randoms(Zp, n, 1 << k - f)"))
+M('tobits-mask-k', ['C18'], (RT, "        r_divl = self._random(field, 1<<(stype.bit_length + k - l))\n        if self.options.no_prss:\n            r_divl = (await r_divl)[0]\n        r_divl = r_divl.value\n        a = await self.gather(a)\n        if rshift_f:", "        r_divl = self._random(field, 1<<k)\n        if self.options.no_prss:\n            r_divl = (await r_divl)[0]\n        r_divl = r_divl.value\n        a = await self.gather(a)\n        if rshift_f:"))
+M('revert-fix-np_pow-bound', ['C18'], (RT, "            bound = (1<<(l + k)) // (t+1)", "            bound = 1<<(l + k) // (t+1)"))
+M('revert-fix-mod-mask', ['C18'], (RT, "        r_divb = self._random(Zp, (1 << k + l) // b)  # NB: k bits beyond the range of a // b", "        r_divb = self._random(Zp, 1 << k)"))
+M('reciprocal-no-blinding', ['C18'], (RT, "            ar = await self.gather(a) * r\n            threshold = 2 * self.threshold", "            ar = await self.gather(a) * 1\n            threshold = 2 * self.threshold"))
+M('convert-mask-l', ['C18'], (RT, "                bound = (1<<(k + l)) // math.comb(m, t) + 1", "                bound = (1<<l) // math.comb(m, t) + 1"))
+M('lsb-open-unmasked-bit', ['C18'], (RT, "        c = await self.output(a + ((1<<l) + (r << 1) + b.value))\n        x = 1 - b if c.value & 1 else b  # xor", "        c = await self.output(a + ((1<<l) + b.value))\n        x = 1 - b if c.value & 1 else b  # xor"))
+B('mul-guard-demorgan', (RT, "        if f and not (a_integral or b_integral) and z != f:\n            c = self.trunc(stype(c), f=f - z)", "        if f and not a_integral and not b_integral and z != f:\n            c = self.trunc(stype(c), f=f - z)"))
+B('sgn-mask-reordered', (RT, "        c = await self.output(a_rmodl + (r_divl << l))\n        c = c.value % (1<<l)\n\n        if not EQ:", "        c = await self.output((r_divl << l) + a_rmodl)\n        c = c.value % (1<<l)\n\n        if not EQ:"))
+B('in_prod-flag-swapped', (RT, "            await self.returnType((stype, x_integral and y_integral))\n\n        if x is y:", "            await self.returnType((stype, y_integral and x_integral))\n\n        if x is y:"))
